@@ -190,8 +190,11 @@ class Ctx:
             self.domain_notes.append(note)
 
     def require(self, label: str, cond):
-        """Side obligation: must hold on the domain for the encoding to be faithful."""
-        self.side.append((label, cond))
+        """Side obligation: must hold on the domain for the encoding to be faithful.
+
+        It is proved from the constraints and denominator atoms that existed *before* it was
+        created (so never from the auxiliary definition it justifies)."""
+        self.side.append((label, cond, len(self.constraints), len(self.atoms)))
 
     # -- denominators
     def atom(self, term, positive: bool) -> int:
@@ -572,8 +575,8 @@ class V:
             if complex_branch:
                 ctx.assume(z3.And(v >= 0, v * v == z3.If(rz >= 0, rz, -rz)))
             else:
-                ctx.assume(z3.And(v >= 0, v * v == rz))
                 ctx.require("radicand >= 0", rz >= 0)
+                ctx.assume(z3.And(v >= 0, v * v == rz))
             hit = (v, rz)
             ctx.aux_sqrt[key] = hit
         v, rz = hit
@@ -668,10 +671,12 @@ def ite(cond, a: V, b: V) -> V:
     return V(ctx, out, dict(den))
 
 
-def atoms_nonzero(ctx: Ctx) -> list:
+def atoms_nonzero(ctx: Ctx, first_n: int | None = None) -> list:
     """Constraints stating every denominator atom is non-zero (positive if so recorded)."""
     out = []
-    for i, t in ctx.atoms.items():
+    for k, (i, t) in enumerate(ctx.atoms.items()):
+        if first_n is not None and k >= first_n:
+            break
         out.append(t > 0 if ctx.atom_pos[i] else t != 0)
     return out
 
